@@ -62,6 +62,19 @@ func c07Scenarios() []c07Scenario {
 				op(1), op(0), x(0), x(1), op(0), op(1), x(1), x(0), x(1),
 			}})
 		}
+		{
+			// exchanges that carry different numbers of operations: a push of three right after another client's
+			// push of one (whose second write may have failed), and the other way round
+			n := 0
+			op := func(c int) c07Step { n++; return c07Step{K: "op", C: c, Call: c07Op(kind, n)} }
+			x := func(c int) c07Step { return c07Step{K: "x", C: c} }
+			out = append(out, c07Scenario{Name: fmt.Sprintf("%s/2clients/bursts", kind), Kind: kind, Steps: []c07Step{
+				{K: "client", C: 0}, {K: "client", C: 1},
+				{K: "open", C: 0, Mode: "create"}, op(0), x(0),
+				{K: "open", C: 1, Mode: "subscribe"}, x(1),
+				op(0), x(0), op(1), op(1), op(1), x(1), op(0), op(0), op(0), x(0), op(1), x(1), x(0), x(1),
+			}})
+		}
 		n := 0
 		op := func(c int) c07Step { n++; return c07Step{K: "op", C: c, Call: c07Op(kind, n)} }
 		x := func(c int) c07Step { return c07Step{K: "x", C: c} }
